@@ -3,7 +3,7 @@
     from Proofs/PushLoopProofs.v. *)
 From Coq Require Import ZArith QArith Qround List Bool NArith Permutation.
 From HK Require Import Model.Queue Model.QueueMon Model.Retry Model.Dispatcher Model.PushLoop
-  Proofs.QueueBase Proofs.QueueInv Proofs.PushLoopProofs Proofs.PushCycleProofs.
+  Proofs.QueueBase Proofs.QueueInv Proofs.PushLoopProofs Proofs.PushCycleProofs Gen.PushShape Proofs.PushShapeProofs.
 Import ListNotations.
 Open Scope Z_scope.
 
@@ -125,9 +125,17 @@ Proof.
   - vm_compute. split; [reflexivity|]. eexists. split; reflexivity.
 Qed.
 
+(** * The tie of the loop model to the source: regenerated from internal/dispatcher/push.go on every run *)
+Theorem C06_run_route_source_shape : ps_shape_ok = true
+  /\ ps_missing_target_backoff_ns = missing_target_backoff
+  /\ ps_batch_iff_single_target = true /\ ps_flush_when_ge_mutation_batch = true /\ ps_final_flush = true
+  /\ ps_stop_branch_calls = expected_stop_branch_calls.
+Proof. exact (conj push_shape_understood push_shape_is_the_models). Qed.
+
 Print Assumptions C06_micro_batch_settles_every_leased_message_once.
 Print Assumptions C06_micro_batch_never_extends.
 Print Assumptions C06_micro_batch_on_the_queue.
 Print Assumptions C06_settlement_is_the_classification.
 Print Assumptions C06_cycle_on_the_queue_is_the_cycle.
 Print Assumptions C06_cycle_on_the_queue_sends_bounded.
+Print Assumptions C06_run_route_source_shape.
